@@ -12,7 +12,7 @@ REG.assumptions += [
     'that a positive lower bound on progress over a bounded interval implies termination is the Archimedean property (trusted)',
     'state lists of k <= 3 items (scalars / 1-D arrays of symbolic length); couplings of m <= 2 models',
 ]
-REG.undecided += ['FP64 end-time clause (currTime + (tf - currTime) <= tf under IEEE rounding) is checked in the thorough tier only']
+REG.undecided += ['FP64 end-time clause (currTime + (tf - currTime) <= tf under IEEE rounding) is checked in the thorough tier only (solve/end-time-FP64)']
 SOLV = 'kawin.solver.Solver'
 ITER = 'kawin.solver.Iterators'
 GM = 'kawin.GenericModel'
@@ -117,6 +117,39 @@ def c_clamp_fp(ctx, it, cfg):
     ctx.prove('within-limits', implies(dmin <= dmax, and_(dmin <= dt, dt <= dmax)))
     ctx.prove('max-wins-over-min', implies(dmax < dmin, dt == dmax))
     ctx.prove('canary/nan-propagates', dt == dmin, expect='refuted')
+
+
+@REG.contract('solve/end-time-FP64', [SOLV + ':DESolver.solve'], configs=[dict(name='last-step', tier='thorough', weight=200)])
+def c_endtime_fp(ctx, it, cfg):
+    """IEEE-754 doubles: the real solve loop executed for its LAST step (the iterator returns the step the solver allowed, which was
+    limited to the remaining time): the recorded time must not exceed tf.  One subtraction and one addition in round-to-nearest."""
+    log = []
+    o = mk_solver(ctx, it, log, fp=True)
+    import math
+    rp = getattr(ctx, 'replay', False)
+    t0, tf = fp64(ctx, 't0'), fp64(ctx, 'tf')
+    fin = (lambda v: math.isfinite(v)) if rp else (lambda v: v.is_finite())
+    ctx.assume(fin(t0), fin(tf), t0 >= 0, t0 < tf)
+    o.fields['dtmin'] = 1e-6 if rp else sym.FPV(z3.FPVal(1e-6, sym.FP64))
+    o.fields['dtmax'] = 1.0 if rp else sym.FPV(z3.FPVal(1.0, sym.FP64))
+    seen = []
+
+    def iterator(f, t, x, upd):
+        seen.append(t)
+        flat, dt = f(t, x, True)                # the real _getdXdt clamps the model's proposal (+inf here) to the remaining time
+        return Tok('xnew'), dt
+    o.fields['iterator'] = iterator
+    o.fields['_getDt'] = lambda dxdt: (float('inf') if rp else sym.FPV(z3.fpPlusInfinity(sym.FP64)))
+
+    def post(t, x):
+        log.append(('post', t, x))
+        return Tok('Xpost'), True                           # stop after this step: only the last step is examined
+    o.fields['postProcess'] = post
+    o.solve(t0, Tok('X0'), tf, False, 10)
+    posts = [e for e in log if e[0] == 'post']
+    ctx.prove('one-step-taken', len(posts) == 1)
+    if len(posts) == 1:
+        ctx.prove('recorded-time-does-not-exceed-the-end-time', posts[0][1] <= tf)
 
 
 # ---------------------------------------------------------------------------------------------------
